@@ -15,7 +15,10 @@ MANIFEST = {
  'technique': 'Lean 4 proof (induction over operation sequences and heap choices with invariants) + differential correspondence',
  'design_ref': 'DESIGN.md §6 C18',
 }
-THEOREMS = []
+THEOREMS = ['C18.name_invariant', 'C18.run_never_raises', 'C18.conservation', 'C18.registrations_distinct',
+            'C18.exactly_once', 'C18.removed_never_run', 'C18.fired_at_most_once', 'C18.fired_were_registered',
+            'C18.run_not_early_and_complete', 'C18.run_fires_minimum', 'C18.raise_ends_only_its_body',
+            'C18.periodic_recurs', 'C18.args_preserved', 'C18.scheduled_match_registration']
 TRUSTED = ['Lean 4.33.0 kernel; axioms ⊆ {propext, Classical.choice, Quot.sound}',
            'CPython heapq.heappop returns an entry with minimal due time (mytuple compares due times only); checked on every pop of the run',
            'harness/c18.py generators, instrumentation (virtual clock, recording heapq proxy, recording addEvent/removeEvent wrappers, instrumented event functions), canonicalisation; hex line protocol']
